@@ -160,7 +160,7 @@ fn scn_configs(o: &Opts, tr: &mut Tr, prop: &str) {
     }
     if prop == "C10" {
         // redundancy is exploited: X ++ X
-        let sizes: Vec<usize> = if o.thorough { vec![100, 400, 1000, 5000, 16000, 30000] } else { vec![100, 1000, 6000] };
+        let sizes: Vec<usize> = if o.thorough { vec![1000, 2500, 5000, 16000, 30000] } else { vec![1000, 6000] };
         for &h in &sizes {
             for lvl in [1u8, 2, 6, 9] {
                 for st in [0usize, 1, 4] {
